@@ -110,6 +110,10 @@ inline std::string gen_scenario(const unsigned char *data, size_t size, const st
     if (c.chance(1, 3)) o += "srcaddr 0 192.168.9.9\n";
     o += "rule * r4 0 silence\nreq 4 query r4.test A\ninject " + std::string(c.chance(3, 4) ? "nocookie" : "badclientcookie") + " 4\nstep\nstep\n"; id = 4; ids.push_back(4);
   }
+  if (prop == "C06" && c.chance(1, 8)) {
+    // a server that rejects every cookie and keeps changing its own: the BADCOOKIE resend path must be bounded like any other
+    o += "cookie 0 changing\nrule * * * badcookie\n";
+  }
   if (prop == "C14" && c.chance(1, 4)) {
     // burst production: many requests outstanding at once (hash tables and lists grow while requests are in flight)
     o += std::string("rule * * * ") + (c.chance(1, 2) ? "silence" : "delay") + "\n";
